@@ -127,9 +127,9 @@ class SymBuilder:
         self.objects[name] = o
         return o
 
-    def obj(self, name, cls, sealed=True, **fields):
-        o = self.ctx.alloc(HObj(cls, 'obj', dict(fields), closed=sealed))
-        self.objects[name] = o
+    def obj(self, _name, _cls, sealed=True, **fields):
+        o = self.ctx.alloc(HObj(_cls, 'obj', dict(fields), closed=sealed))
+        self.objects[_name] = o
         return o
 
     def list(self, items):
